@@ -466,6 +466,55 @@ impl Path {
         false
     }
 
+    /// Copies the decision path for the verification hooks
+    #[cfg(feature = "verif-hooks")]
+    pub(crate) fn verif_snapshot(&self) -> Vec<crate::verif::Branch> {
+        use crate::verif::{Branch, ThreadStatus};
+
+        (0..self.branches.len())
+            .map(|i| {
+                let r = object::Ref::from_usize(i);
+
+                if let Some(s) = r.downcast::<Schedule>(&self.branches) {
+                    let s = s.get(&self.branches);
+                    Branch::Schedule {
+                        threads: s
+                            .threads
+                            .iter()
+                            .map(|th| match th {
+                                Thread::Disabled => ThreadStatus::Disabled,
+                                Thread::Skip => ThreadStatus::Skip,
+                                Thread::Yield => ThreadStatus::Yield,
+                                Thread::Pending => ThreadStatus::Pending,
+                                Thread::Active => ThreadStatus::Active,
+                                Thread::Visited => ThreadStatus::Visited,
+                            })
+                            .collect(),
+                        initial_active: s.initial_active,
+                        preemptions: s.preemptions,
+                        exploring: s.exploring,
+                    }
+                } else if let Some(l) = r.downcast::<Load>(&self.branches) {
+                    let l = l.get(&self.branches);
+                    Branch::Load {
+                        values: l.values[..l.len as usize].to_vec(),
+                        pos: l.pos,
+                        exploring: l.exploring,
+                    }
+                } else {
+                    let s = r
+                        .downcast::<Spurious>(&self.branches)
+                        .expect("unknown branch kind")
+                        .get(&self.branches);
+                    Branch::Spurious {
+                        spur: s.spur,
+                        exploring: s.exploring,
+                    }
+                }
+            })
+            .collect()
+    }
+
     fn last_schedule(&self) -> Option<object::Ref<Schedule>> {
         self.branches.iter_ref::<Schedule>().rev().next()
     }
